@@ -42,7 +42,9 @@ FILES = ["minidump-processor/src/processor.rs", "minidump-processor/src/process_
          "breakpad-symbols/src/sym_file/walker.rs", "breakpad-symbols/src/sym_file/parser.rs", "breakpad-symbols/src/sym_file/types.rs",
          "breakpad-symbols/src/sym_file/mod.rs",
          # feature-gated code (http / debuginfo-symbols): a supplier and an alternative SymbolProvider
-         "breakpad-symbols/src/http.rs", "minidump-unwind/src/symbols/debuginfo.rs"]
+         "breakpad-symbols/src/http.rs", "minidump-unwind/src/symbols/debuginfo.rs",
+         # the CpuContext accessors (the trait's valid_registers(&Some(set)) walks the validity HashSet)
+         "minidump/src/context.rs"]
 MUTABLE_TY = r"RefCell|\bCell<|Mutex|RwLock|Atomic|OnceLock|OnceCell|Lazy|UnsafeCell"
 ITER_METHODS = ["iter", "iter_mut", "into_iter", "keys", "values", "values_mut", "drain", "into_keys", "into_values", "retain",
                 "par_iter", "into_par_iter"]
@@ -756,6 +758,65 @@ def lsb_aliases(repo):
     return arms
 
 
+def fn_body(src, blanked, pattern, what):
+    """normalised text of the body of the first fn whose header matches `pattern` (searched in the blanked text)"""
+    m = re.search(pattern, blanked)
+    if not m:
+        die(what + " not found")
+    op = blanked.find("{", m.end() - 1)
+    return norm(src[op:match_close(blanked, op) + 1])
+
+
+def unloaded_code(repo):
+    """the code C13/Unloaded.v models, as normalised text: (1) the block of the per-thread future that fills
+    frame.unloaded_modules, (2) MinidumpUnloadedModuleList::modules_at_address, (3) MinidumpUnloadedModule::memory_range,
+    (4) the size guard of MinidumpUnloadedModuleList::read, (5) what the processor does with a stream it cannot read"""
+    sc = Scan(os.path.join(repo, "minidump-processor/src/processor.rs"), "processor/processor.rs")
+    s, src = sc.s, sc.src
+    m = re.search(r"if\s+frame\s*\.\s*module\s*\.\s*is_none\(\)\s*\{", s)
+    if not m:
+        die("processor.rs: `if frame.module.is_none() {` (the unloaded-module block of the walk future) not found")
+    block = norm(src[m.start():match_close(s, m.end() - 1) + 1])
+    m = re.search(r"let\s+unloaded_modules\s*=\s*match\s+dump\s*\.\s*get_stream::<MinidumpUnloadedModuleList>\(\)\s*\{", s)
+    if not m:
+        die("processor.rs: `let unloaded_modules = match dump.get_stream::<MinidumpUnloadedModuleList>() {` not found")
+    fallback = norm(src[m.start():match_close(s, m.end() - 1) + 1])
+    if "Err(_)=>MinidumpUnloadedModuleList::new()" not in fallback:
+        die("processor.rs: an unreadable unloaded-module stream is no longer replaced by an empty list: " + fallback[:200])
+    sm = Scan(os.path.join(repo, "minidump/src/minidump.rs"), "minidump/minidump.rs")
+    s, src = sm.s, sm.src
+    at = fn_body(src, s, r"pub\s+fn\s+modules_at_address\s*\(\s*&self\s*,\s*address\s*:\s*u64\s*,?\s*\)\s*->\s*impl\s+Iterator<Item\s*=\s*&MinidumpUnloadedModule>\s*\{",
+                 "minidump.rs: MinidumpUnloadedModuleList::modules_at_address")
+    im = re.search(r"impl\s+Module\s+for\s+MinidumpUnloadedModule\s*\{", s)
+    if not im:
+        die("minidump.rs: impl Module for MinidumpUnloadedModule not found")
+    # memory_range is an inherent method written just before the Module impl
+    starts = [x.start() for x in re.finditer(r"fn\s+memory_range\s*\(\s*&self\s*\)\s*->\s*Option<Range<u64>>\s*\{", s) if x.start() < im.start()]
+    if not starts:
+        die("minidump.rs: MinidumpUnloadedModule::memory_range not found")
+    op = s.find("{", starts[-1])
+    rng = norm(src[op:match_close(s, op) + 1])
+    rm = re.search(r"impl<'a>\s*MinidumpStream<'a>\s*for\s+MinidumpUnloadedModuleList\s*\{", s)
+    if not rm:
+        die("minidump.rs: impl MinidumpStream for MinidumpUnloadedModuleList not found")
+    body = norm(src[rm.end() - 1:match_close(s, rm.end() - 1) + 1])
+    g = re.search(r"forrawinraw_modules\.into_iter\(\)\{(if.*?\{)(.*?)\}modules\.push", body)
+    if not g:
+        die("minidump.rs: MinidumpUnloadedModuleList::read is not `for raw in raw_modules.into_iter() { if <guard> { .. } modules.push(..` : " + body[:300])
+    guard = g.group(1) + g.group(2) + "}"
+    se = Scan(os.path.join(repo, "minidump-processor/src/evil.rs"), "processor/evil.rs")
+    em = re.search(r"\.map\(\s*\|\s*certs\s*:\s*HashMap<String,\s*Vec<String>>\s*\|\s*\{", se.s)
+    if not em:
+        die("evil.rs: `.map(|certs: HashMap<String, Vec<String>>| {` (the certificate fold) not found")
+    fold = norm(se.src[em.end() - 1:match_close(se.s, em.end() - 1) + 1])
+    return [("processor/evil.rs", "handle_evil", fold),
+            ("processor/processor.rs", "into_process_state/walk future", block),
+            ("processor/processor.rs", "new", fallback),
+            ("minidump/minidump.rs", "MinidumpUnloadedModuleList::modules_at_address", at),
+            ("minidump/minidump.rs", "MinidumpUnloadedModule::memory_range", rng),
+            ("minidump/minidump.rs", "MinidumpUnloadedModuleList::read", guard)]
+
+
 def label_of(f):
     return f.replace("minidump-", "").replace("/src/", "/")
 
@@ -799,6 +860,7 @@ def main():
     arm_regs, arm_aliases, arm_saved = arm64_registers(repo, "CONTEXT_ARM", "minidump-unwind/src/arm.rs")
     await_callees, unwinder_async_fns = walk_awaits(repo)
     ordered_sites, ordered_decls = scan_ordered(repo)
+    unloaded_texts = unloaded_code(repo)
     if not ordered_sites or not ordered_decls:
         die("no BTreeMap / BTreeSet iteration or field found (the extraction is broken: StackFrame.unloaded_modules is a BTreeMap)")
     o = ["(* GENERATED by translate/c13_sites.py from minidump-processor, minidump-unwind and breakpad-symbols sources — do not edit. *)",
@@ -830,7 +892,8 @@ def main():
         o.append("")
     for title, name, lst in [
             ("every iteration over a BTreeMap / BTreeSet (ascending by key, whatever the insertion order): for loops as written, method sites as receiver.method(", "ordered_iteration_sites", ordered_sites),
-            ("every struct field declared as a BTreeMap / BTreeSet: (file, struct.field, type)", "ordered_container_fields", ordered_decls)]:
+            ("every struct field declared as a BTreeMap / BTreeSet: (file, struct.field, type)", "ordered_container_fields", ordered_decls),
+            ("code that C13/Model.v (cert_of) and C13/Unloaded.v model, as written (whitespace and comments removed)", "pinned_model_code", unloaded_texts)]:
         o.append("(* %s *)" % title)
         o.append("Definition %s : list (string * string * string) := [" % name)
         o.append(";\n".join("  (%s, %s, %s)" % tuple(coq_str(x) for x in t) for t in lst))
